@@ -215,7 +215,7 @@ def rand_data(rng, shape, cplx=False):
     return {"shape": list(shape), "re": re, "im": im}
 
 
-def gen_net(rng, nt_max=6, open_max=4, cap=60000, ids="random", refprefix="", allow_idle=True, min_t=0):
+def gen_net(rng, nt_max=6, open_max=4, cap=60000, ids="random", refprefix="", allow_idle=True, min_t=0, idle_p=0.3):
     """a random consistent network description; returns (desc, feature set)"""
     while True:
         nt = rng.randint(max(min_t, 0), nt_max)
@@ -243,7 +243,7 @@ def gen_net(rng, nt_max=6, open_max=4, cap=60000, ids="random", refprefix="", al
                     groups.append(g)
             else:
                 groups.append(g)
-        if not allow_idle and any(all(l[0] == VT for l in g) for g in groups):
+        if any(all(l[0] == VT for l in g) for g in groups) and (not allow_idle or rng.random() > idle_p):
             continue
         dims = [rng.choice([1, 2, 2, 2, 2, 3, 3]) for _ in groups]
         p = 1
